@@ -5,10 +5,15 @@ C02 for RouterJSR311: totality and exact classification.
     WebService WITHOUT routes `Config.wfTemplates` says nothing about the root path, hence the
     explicit hypothesis `Jsr.rootsRead`;
   * the route candidates of the dispatcher's service are, as a set, the built routes whose template
-    admits the path (`Jsr.match_sound` / `Jsr.match_complete`, the latter for newline-free paths).
+    admits the path (`Jsr.match_sound` / `Jsr.match_complete`, the latter for newline-free paths);
+  * WHICH service is the dispatcher is specified independently of the router model:
+    `Spec.bestServices` goes through `Spec.jsrBestService` (the first registered among the matching
+    roots with a maximal key), and `Jsr.detectDispatcher_eq_spec` (Lemmas/JsrBest.lean) shows that
+    the model's sort-and-take-first computes it.
 -/
 import Restful.Lemmas.ClassifyCurly
 import Restful.Lemmas.JsrMatch
+import Restful.Lemmas.JsrBest
 namespace Restful
 open Str
 variable (E : ReEnv)
@@ -261,8 +266,9 @@ theorem C02_total_jsr (cfg : Config) (hk : cfg.router = .jsr) (hwf : cfg.wfTempl
         rw [hps]; simp
 
 /-- **C02, RouterJSR311**: on checked templates (route-less services included), hygienic media lists
-    and newline-free paths, the outcome is exactly what the decision table says for the dispatcher's
-    service -/
+    and newline-free paths, the outcome is exactly what the decision table says for the service
+    that `Spec.jsrBestService` names (the router's dispatcher IS that service:
+    `Jsr.detectDispatcher_eq_spec`) -/
 theorem C02_classify_jsr_partial (E : ReEnv) (cfg : Config) (hk : cfg.router = .jsr) (hwf : cfg.wfTemplates = true)
     (hroots : Jsr.rootsRead cfg = true) (hh : Spec.mediaHygiene cfg = true) (req : Req) (hn : '\n' ∉ req.path) :
     Spec.c02Holds E cfg req (route E cfg req)
@@ -283,7 +289,7 @@ theorem C02_classify_jsr_partial (E : ReEnv) (cfg : Config) (hk : cfg.router = .
       apply Spec.c02Holds_nosvc
       unfold Spec.bestServices
       rw [hk]
-      simp only [hd]
+      simp only [← Jsr.detectDispatcher_eq_spec, hd]
     | some y =>
       obtain ⟨svc, final⟩ := y
       rw [hd] at hc
@@ -292,7 +298,7 @@ theorem C02_classify_jsr_partial (E : ReEnv) (cfg : Config) (hk : cfg.router = .
       have hbest : svc ∈ Spec.bestServices E cfg req := by
         unfold Spec.bestServices
         rw [hk]
-        simp only [hd, List.mem_singleton]
+        simp only [← Jsr.detectDispatcher_eq_spec, hd, List.mem_singleton]
       have hmem' : ∀ r, r ∈ cands ↔ r ∈ svc.built ∧ Spec.pathAdmits E .jsr r req.path = true := by
         intro r
         rw [hmem r]
